@@ -114,6 +114,13 @@ theorem feed_halted_forever (p : Pattern ε) (r : Run ε) (es₁ es₂ : List ε
   have : feed p r (es₁ ++ es₂) = feed p (feed p r es₁) es₂ := by simp [feed, List.foldl_append]
   rw [this]; exact feed_halted_terminal p es₂ _ h
 
+/-- non-vacuity: on the pattern of Props/C01 (`exPat`: a, optional b, loop c, strict d; halt on 9) a run advances over
+`[2, 2]` (history 1 → 3, position 1), completes on `3` (halted, position 4) and is then deaf to `[2, 9, 0]`. -/
+example : let r := newRun "r0" exPat "a" 0
+    (feed exPat r [2, 2]).idx = 1 ∧ Hist.size (feed exPat r [2, 2]).hist = 3 ∧
+    (feed exPat r [2, 2, 3]).halted = true ∧ (feed exPat r [2, 2, 3]).idx = 4 ∧
+    (feed exPat r ([2, 2, 3] ++ [2, 9, 0])).hist = (feed exPat r [2, 2, 3]).hist := by decide
+
 end Bobo.Run
 
 namespace Bobo.Decider
